@@ -2,6 +2,7 @@
 
 pub mod c02;
 pub mod c05;
+pub mod util;
 
 use pvc_engine::{Run, load_replay, parse_args};
 
